@@ -23,6 +23,12 @@ pub enum CfgError {
     /// This error occurs when a return statement is used but can be reached by
     /// no labels.
     NoLabelForReturn(ParserNode),
+    /// This error occurs when a label is called as a function, but no return
+    /// instruction can be reached from it.
+    FunctionWithoutReturn(LabelStringToken),
+    /// This error occurs when a label is the target of a jump, but no
+    /// instruction follows its definition.
+    LabelWithoutInstruction(LabelStringToken),
     /// Unexpected error
     UnexpectedError,
     /// Assertion error
@@ -62,6 +68,12 @@ impl Display for CfgError {
             CfgError::NoLabelForReturn(_) => {
                 write!(f, "No label for return")
             }
+            CfgError::FunctionWithoutReturn(label) => {
+                write!(f, "Function without return: {label}")
+            }
+            CfgError::LabelWithoutInstruction(label) => {
+                write!(f, "Label without instruction: {label}")
+            }
             CfgError::UnexpectedError => write!(f, "Unexpected error"),
             CfgError::AssertionError => write!(f, "Assertion error"),
         }
@@ -75,6 +87,8 @@ impl From<&CfgError> for SeverityLevel {
             | CfgError::DuplicateLabel(_)
             | CfgError::MultipleLabelsForReturn(_, _)
             | CfgError::NoLabelForReturn(_)
+            | CfgError::FunctionWithoutReturn(_)
+            | CfgError::LabelWithoutInstruction(_)
             | CfgError::UnexpectedError
             | CfgError::AssertionError => SeverityLevel::Error,
         }
@@ -97,7 +111,9 @@ impl DiagnosticLocation for CfgError {
                 node.file()
             }
             CfgError::LabelsNotDefined(labels) => first_label(labels).file(),
-            CfgError::DuplicateLabel(label) => label.file(),
+            CfgError::DuplicateLabel(label)
+            | CfgError::FunctionWithoutReturn(label)
+            | CfgError::LabelWithoutInstruction(label) => label.file(),
             CfgError::UnexpectedError | CfgError::AssertionError => uuid::Uuid::nil(),
         }
     }
@@ -108,7 +124,9 @@ impl DiagnosticLocation for CfgError {
                 node.range()
             }
             CfgError::LabelsNotDefined(labels) => first_label(labels).range(),
-            CfgError::DuplicateLabel(label) => label.range(),
+            CfgError::DuplicateLabel(label)
+            | CfgError::FunctionWithoutReturn(label)
+            | CfgError::LabelWithoutInstruction(label) => label.range(),
             CfgError::UnexpectedError | CfgError::AssertionError => crate::parser::Range::default(),
         }
     }
@@ -119,7 +137,9 @@ impl DiagnosticLocation for CfgError {
                 node.raw_text()
             }
             CfgError::LabelsNotDefined(labels) => first_label(labels).raw_text(),
-            CfgError::DuplicateLabel(label) => label.raw_text(),
+            CfgError::DuplicateLabel(label)
+            | CfgError::FunctionWithoutReturn(label)
+            | CfgError::LabelWithoutInstruction(label) => label.raw_text(),
             CfgError::UnexpectedError | CfgError::AssertionError => String::new(),
         }
     }
@@ -167,6 +187,15 @@ impl DiagnosticMessage for CfgError {
                 A label is considered a function if it has been called by a [jal] instruction. This code might also be\
                 missing from your file or imports.
                 ".to_string(),
+            CfgError::FunctionWithoutReturn(label) => format!(
+                "The label {label} is called as a function, but no return instruction can be reached from it.\n\n\
+                Every function must be able to return to its caller. A function that only loops, exits the program or \
+                runs into the end of the file cannot be analysed. If this label is not meant to be a function, \
+                jump to it (j {label}) instead of calling it (jal {label})."
+            ),
+            CfgError::LabelWithoutInstruction(label) => format!(
+                "The label {label} is the target of a jump or branch, but no instruction follows its definition."
+            ),
             CfgError::UnexpectedError => "An unexpected error occurred. Please file a bug.".to_string(),
             CfgError::AssertionError => "An unexpected assertion error occurred. Please file a bug.".to_string(),
         }
